@@ -150,21 +150,11 @@ def judge(site, opts, res, rows, log, part, replay):
                     part.violation('in-scope-link-not-recorded/{}/{}/{}'.format(link['spelling'], link['kind'], cls),
                                    {'parent': url, 'link': link, 'derived_record': rec}, replay)
     # --- recorded link metadata must describe a real discovery: root = the start URL, parent = a fetched page that
-    #     serves a link to this URL, level = parent's level + 1
+    #     serves a link to this URL, level = parent's level + 1, inline level = what the kind of that link implies
     for url, row in rowmap.items():
         if url == site.start:
             continue
-        problems = []
-        if row['root'] != site.start:
-            problems.append('root')
-        parent = rowmap.get(row['parent'])
-        ppage = site.pages.get(row['parent'])
-        if ppage is not None and ppage.kind == 'redirect':
-            ppage = site.pages.get(ppage.location[1])
-        if parent is None or ppage is None or not any(l['target'] == url for l in ppage.links):
-            problems.append('parent')
-        elif row['level'] != parent['level'] + 1:
-            problems.append('level')
+        problems = sitegen.row_metadata_problems(url, row, rowmap, site.pages, site.start)
         if problems:
             part.violation('row-metadata-wrong/' + '+'.join(problems), {'row': row, 'start': site.start}, replay)
         else:
@@ -221,8 +211,18 @@ def nontrivial_key(site, opts):
 
 def build_site(case):
     rng = random.Random(case['site_seed'])
-    return sitegen.generate(rng, n_pages=case.get('n_pages'), redirects=case.get('redirects', True), junk_links=True,
+    site = sitegen.generate(rng, n_pages=case.get('n_pages'), redirects=case.get('redirects', True), junk_links=True,
                             link_redirect_targets=case.get('link_redirect_targets', False), frames=True)
+    if case.get('hub_links'):
+        # one page with very many links (around and beyond the 1000-link batches in which a page's links are stored),
+        # each to a leaf that nothing else links to
+        hub = site.add(sitegen.Page('http://' + site.host + '/hub.html', 'html'))
+        sitegen.add_link(rng, site, site.start, hub.url, 'a', ['abs-path'])
+        for k in range(case['hub_links']):
+            leaf = site.add(sitegen.Page('http://%s/h/leaf%d.html' % (site.host, k), 'leaf'))
+            sitegen.add_link(rng, site, hub.url, leaf.url, 'a', ['abs-path', 'absolute', 'relative'])
+        site.features.add('hub-page')
+    return site
 
 
 def worker(job):
@@ -245,6 +245,8 @@ def worker(job):
             part.nontrivial_case(nontrivial_key(site, opts) + str(opts['concurrent']))
         orders.add(common.jhash([canon_request(e) for e in log]))
         part.count('conc_%d' % opts['concurrent'])
+        if case.get('hub_links'):
+            part.count('crawls_with_page_of_over_1000_links' if case['hub_links'] > 1000 else 'crawls_with_hub_page')
         if len(part.samples) < 2:
             part.sample({'site': site.describe(), 'opts': opts, 'requests': [canon_request(e) for e in log][:12],
                          'rows': len(rows)})
@@ -281,6 +283,10 @@ def main():
                 for c in (1, 2, 3, 4, 6, 8):
                     cases.append({'site_seed': site_seed, 'opts': dict(opts, concurrent=c),
                                   'delay_seed': rng.randrange(1 << 30), 'n_pages': 12})
+        for n in ([1001, 2003] if not check.thorough else [999, 1000, 1001, 1002, 1999, 2000, 2001, 2500, 3001, 4000]):
+            hub_opts = dict(gen_options(rng), level=0, no_parent=False, accept_regex=None, reject_regex=None)
+            cases.insert(rng.randrange(len(cases)), {'site_seed': rng.randrange(1 << 30), 'opts': hub_opts,
+                                                     'delay_seed': rng.randrange(1 << 30), 'n_pages': 3, 'hub_links': n})
         nj = check.jobs * (4 if check.thorough else 1)
         jobs = [{'cases': cases[i::nj]} for i in range(nj) if cases[i::nj]]
         res = par.run_jobs(target, jobs, check.jobs, timeout=7200 if check.thorough else 900)
